@@ -558,19 +558,9 @@ func c04HTTP(c *ctx, corpus []string, n int, next func(int) string) {
 			st.s.close()
 		}
 	}()
-	total := n
-	for i := 0; i < total; i++ {
-		var t string
-		switch {
-		case i%2 == 0 && i/2 < len(c04Attacks): // the curated attack list first, interleaved with corpus samples and generated strings
-			t = c04Attacks[i/2]
-		case i%4 == 1 && len(corpus) > 0:
-			t = corpus[(i*7)%len(corpus)]
-		default:
-			t = next(len(corpus) + i)
-		}
+	// probe sends one redirect target through every emitter of one site
+	probe := func(st *c04Site, i int, t string) {
 		esc := url.QueryEscape(t)
-		for _, st := range sites {
 			base := st.bases[i%len(st.bases)]
 			ingOrigins := append([]string{}, st.s.o.ingresses...)
 			switch st.mode {
@@ -617,11 +607,45 @@ func c04HTTP(c *ctx, corpus []string, n int, next func(int) string) {
 					st.loginFlow(c, base, follow(base, r.Location), "autologin-401-")
 				}
 			}
+	}
+	total := n
+	for i := 0; i < total; i++ {
+		var t string
+		switch {
+		case i%2 == 0 && i/2 < len(c04Attacks): // the curated attack list first, interleaved with corpus samples and generated strings
+			t = c04Attacks[i/2]
+		case i%4 == 1 && len(corpus) > 0:
+			t = corpus[(i*7)%len(corpus)]
+		default:
+			t = next(len(corpus) + i)
+		}
+		for _, st := range sites {
+			probe(st, i, t)
 		}
 		if i%10 == 9 {
 			scanLogs(c, "c04")
 		}
 	}
+	// targets DERIVED FROM WHAT THE OPERATOR CONFIGURED for this very site (ingresses, default redirect URL, SSO server URL, provider): strings that merely
+	// begin with, contain or wrap an allowed URL must not be mistaken for it
+	for _, st := range sites {
+		k := 0
+		for _, o := range st.origins {
+			ot := strings.TrimSuffix(o, "/")
+			ou, err := url.Parse(o)
+			if err != nil {
+				continue
+			}
+			ho := ou.Scheme + "://" + ou.Host
+			for _, t := range []string{ot + ".evil.net/x", ot + "@evil.net/x", ot + "evil.net/x", ot + "%40evil.net/x", ot + "\\@evil.net/x", ot + ":x@evil.net/", ot + "/../../x", ot + "/..//evil.net",
+				ho + ".evil.net/", ho + "@evil.net/", ho + ":80@evil.net/", "//evil.net/" + o, "https://evil.net/?" + o, "https://evil.net/#" + o, "https://evil.net/" + ou.Host, "https://evil.net\\@" + ou.Host + "/",
+				o, ot + "/", ot + "/inside?x=1", strings.ToUpper(ho) + "/x", ho + ":65536/", ho + ":/x", strings.Replace(ho, "://", ":/", 1) + "/x", strings.Replace(ho, "http://", "https://", 1) + "/x"} {
+				probe(st, k, t)
+				k++
+			}
+		}
+	}
+	scanLogs(c, "c04")
 }
 
 func pathOnly(t string) string {
